@@ -6,6 +6,7 @@ package main
 
 import (
 	"fmt"
+	"os"
 	"strings"
 )
 
@@ -382,6 +383,9 @@ func init() {
 		return nil
 	}
 	rtIntrinsics["vObserve"] = func(c *PathCtx, fr *frame, args []Value) Value {
+		if os.Getenv("SYMGO_OBSERVE") != "" {
+			fmt.Fprintf(os.Stderr, "OBSERVE %v\n", args)
+		}
 		return nil
 	}
 	rtIntrinsics["vYield"] = func(c *PathCtx, fr *frame, args []Value) Value {
